@@ -304,14 +304,396 @@ class Scenario:
         return self.ops
 
 
+class Directed(Scenario):
+    """Directed families: each drives the connection into a chosen situation with a *reactive* peer
+    (acks what it really received, detects gaps, retransmits its own data), then perturbs it."""
+
+    def start(self, outgoing=True, opts="", rwnd=1 << 20, our=None, rem=None):
+        r = self.r
+        self.loss = 0
+        self.peer_pos = 0
+        self.outgoing = outgoing
+        self.our = our if our is not None else r.choice([101, 65533, r.randrange(65536)])
+        self.rem = rem if rem is not None else r.choice([1, 65535, r.randrange(65536)])
+        self.rwnd = rwnd
+        self.cid = r.randrange(65536)
+        extra = f" rwnd={rwnd} rtt={r.choice([1_000_000, 20_000_000, 100_000_000])}" if outgoing else ""
+        self.do(f"vs new {'out' if outgoing else 'in'} our={self.our} rem={self.rem} cid={self.cid}{extra} {opts}".strip())
+        self.peer_next = self.rem if outgoing else (self.rem + 1) % 65536
+        self.got = {}
+        self.lost = set()
+        self.peer_ack = (self.our - 1) % 65536
+        self.our_fin_seq = None
+        self.saw_ack = None
+        self.established = outgoing
+        self.peer_sent_fin = False
+        self.ts = 1000
+        self.drop_rule = None          # function(dgram dict, count of times seen) -> bool (True = peer never gets it)
+        self.seen_count = {}
+        if not outgoing:
+            self.do("vs poll")         # SYN-ACK goes out
+            if r.random() < 0.8:
+                self.inject(2, ack=(self.our - 1) % 65536)
+                self.do("vs poll")
+
+    def on_poll(self, out):
+        if "out=[" not in out:
+            return
+        body = out.split("out=[", 1)[1].split("]", 1)[0]
+        self.last_out = []
+        for hx in [x for x in body.split(",") if x]:
+            d = parse_dgram(hx)
+            d["len"] = len(hx) // 2
+            self.last_out.append(d)
+            self.saw_ack = d["ack"]
+            if d["type"] in (0, 1):
+                key = (d["type"], d["seq"])
+                self.seen_count[key] = self.seen_count.get(key, 0) + 1
+                if self.drop_rule and self.drop_rule(d, self.seen_count[key]):
+                    continue
+                self.got[d["seq"]] = d["plen"]
+                if d["type"] == 1:
+                    self.our_fin_seq = d["seq"]
+        while (self.peer_ack + 1) % 65536 in self.got:
+            self.peer_ack = (self.peer_ack + 1) % 65536
+
+    def next_timer(self):
+        cands = []
+        for key in ("t_rtx", "t_inact", "t_ack", "t_pipe", "t_syn"):
+            v = self.fp.get(key, "-")
+            if v != "-":
+                cands.append(int(v))
+        return min(cands) if cands else None
+
+    def to_next_timer(self, jitter=True):
+        t = self.next_timer()
+        if t is None:
+            self.do(f"vs adv {self.r.choice([1_000_000, 40_000_000])}")
+        else:
+            d = max(0, t - self.now)
+            if jitter:
+                d = max(0, d + self.r.choice([0, 0, 0, 0, -1, 1]))
+            self.do(f"vs adv {d}")
+        self.do("vs poll")
+
+    def peer_acks(self, sack=True, wnd=None):
+        self.inject(2, sack=self.sack_bytes() if sack else None, wnd=wnd)
+
+    # ---- families
+    def fam_bulk_loss(self):
+        r = self.r
+        mss_opts = r.choice(["", "mtu=576", "mtu=1000 probe_retx=0", "nagle=0", "retx=2", "tx0=4096 txmax=65536"])
+        self.start(True, mss_opts, rwnd=r.choice([1 << 20, 20000, 5000]))
+        sack_capable = r.random() < 0.7
+        # which first transmissions get lost, and how many times
+        lose = {}
+        for _ in range(r.randrange(0, 4)):
+            lose[r.randrange(0, 30)] = r.choice([1, 1, 2, 3, 6])
+        order = []
+
+        def rule(d, n):
+            if d["type"] != 0:
+                return False
+            if d["seq"] not in order:
+                order.append(d["seq"])
+            idx = order.index(d["seq"])
+            return n <= lose.get(idx, 0)
+        self.drop_rule = rule
+        self.do(f"vs write {r.choice([3000, 20000, 60000])}")
+        idle = 0
+        # acks may be blacked out for a while (the peer receives but its acks are lost), then resume
+        blackout = (r.randrange(0, 8), r.randrange(2, 14)) if r.random() < 0.4 else (0, 0)
+        for step in range(r.randrange(10, 60)):
+            if self.dead:
+                break
+            out = self.do("vs poll")
+            sent_something = "out=[]" not in out
+            if blackout[0] <= step < blackout[0] + blackout[1]:
+                if not sent_something:
+                    self.to_next_timer()
+                continue
+            if sent_something:
+                idle = 0
+                # the peer acks each datagram it received (dup acks for out-of-order ones), or every other one
+                n_ack = len([d for d in self.last_out if d["type"] in (0, 1)])
+                for _ in range(n_ack if r.random() < 0.7 else max(1, n_ack // 2)):
+                    self.peer_acks(sack=sack_capable, wnd=r.choice([None, None, None, 0, 600]))
+                if r.random() < 0.2:
+                    self.do(f"vs adv {r.choice([1000, 1_000_000, 30_000_000])}")
+            else:
+                idle += 1
+                if r.random() < 0.3:
+                    self.do(f"vs write {r.choice([1, 100, 5000])}")
+                self.to_next_timer()
+                if self.last_out and not self.dead:
+                    self.peer_acks(sack=sack_capable)
+        if not self.dead and r.random() < 0.5:
+            self.do(r.choice(["vs shutdown", "vs flush", "vs dropw"]))
+            for _ in range(4):
+                if self.dead:
+                    break
+                self.do("vs poll")
+                self.peer_acks(sack=sack_capable)
+                self.to_next_timer()
+
+    def fam_rto_then_sack(self):
+        """A hole is lost together with its first `k` RTO retransmissions while the acknowledgements of the
+        later segments are lost too; then the peer's (selective) acks get through again."""
+        r = self.r
+        retx = r.choice([1, 2, 2, 3, 5])
+        self.start(True, f"retx={retx} " + r.choice(["", "mtu=576", "nagle=0"]), rwnd=1 << 20)
+        hole_idx = r.randrange(3, 12)
+        k = r.choice([retx, retx, retx - 1, retx + 1])
+        order = []
+
+        def rule(d, n):
+            if d["type"] != 0:
+                return False
+            if d["seq"] not in order:
+                order.append(d["seq"])
+            return order.index(d["seq"]) == hole_idx and n <= k + 1
+        self.drop_rule = rule
+        sack_capable = r.random() < 0.85
+        self.do(f"vs write {r.choice([20000, 40000])}")
+        owed = False
+        for _ in range(80):
+            if self.dead:
+                break
+            out = self.do("vs poll")
+            hole_seq = order[hole_idx] if len(order) > hole_idx else None
+            in_blackout = hole_seq is not None and self.seen_count.get((0, hole_seq), 0) <= k and hole_seq not in self.got
+            if in_blackout:
+                owed = True
+            if "out=[]" not in out and not in_blackout:
+                for _ in range(max(1, len([d for d in self.last_out if d["type"] == 0]))):
+                    self.peer_acks(sack=sack_capable)
+                owed = False
+            elif "out=[]" in out:
+                if not in_blackout and owed:
+                    # the acknowledgements get through again: everything received meanwhile is reported at once
+                    for _ in range(r.choice([1, 1, 3])):
+                        self.peer_acks(sack=sack_capable)
+                    owed = False
+                    continue
+                self.to_next_timer(jitter=False)
+                if not in_blackout and self.last_out and not self.dead:
+                    self.peer_acks(sack=sack_capable)
+            if hole_seq is not None and hole_seq in self.got and r.random() < 0.3:
+                break
+        for _ in range(3):
+            if self.dead:
+                break
+            self.do("vs poll")
+            self.peer_acks(sack=sack_capable)
+
+    def fam_blackhole(self):
+        r = self.r
+        link = r.choice([1500, 1500, 1000, 9000, 1280])
+        v4 = r.random() < 0.8
+        self.start(True, f"mtu={link} probe_retx={r.choice([0, 1, 1, 2])}" + ("" if v4 else " v4=0"), rwnd=1 << 20)
+        hdrs = 20 if v4 else 20
+        path = r.choice([548, 600, 900, 1020, 1200, 1472, 1473, 4000, 9000])   # largest datagram (uTP hdr + payload) the path passes
+        mode = r.random()
+        if mode < 0.4:
+            self.do(f"vs tmode limit {path}")          # local EMSGSIZE
+        else:
+            self.drop_rule = lambda d, n: d["len"] > path   # silent blackhole
+        lose_small = r.random() < 0.3
+        if lose_small:
+            prev = self.drop_rule
+            k = r.randrange(1, 12)
+            self.drop_rule = lambda d, n: (prev(d, n) if prev else False) or (d["type"] == 0 and n == 1 and d["seq"] % 16 == k)
+        self.do(f"vs write {r.choice([8000, 30000, 30000])}")
+        for _ in range(r.randrange(15, 70)):
+            if self.dead:
+                break
+            out = self.do("vs poll")
+            if "out=[]" not in out:
+                for _ in range(max(1, len(self.last_out))):
+                    self.peer_acks(sack=True)
+                if r.random() < 0.3:
+                    self.do("vs write 3000")
+            else:
+                self.to_next_timer()
+                if self.last_out and not self.dead:
+                    self.peer_acks(sack=True)
+
+    def fam_teardown(self):
+        r = self.r
+        outgoing = r.random() < 0.7
+        self.start(outgoing, r.choice(["", "wla=0", "inact=2000000000", "retx=2"]))
+        target = r.choice(["est", "fw1", "fw1", "fw2", "la", "synack", "fw1_data_out"])
+        if r.random() < 0.25:
+            # the peer closes its window (or it never opened: accepted connection before the first packet),
+            # then the application writes and lets go of the stream
+            if self.established and r.random() < 0.7:
+                self.peer_acks(wnd=0)
+                self.do("vs poll")
+            self.do(f"vs write {r.choice([1, 100, 2000])}")
+            if r.random() < 0.5:
+                self.do("vs poll")
+                self.do(f"vs write {r.choice([1, 100])}")
+            self.do(r.choice(["vs shutdown", "vs dropw"]))
+            if r.random() < 0.7:
+                self.do("vs dropr")
+            self.do("vs poll")
+            self.peer_acks(wnd=r.choice([0, 5000]))
+            self.do("vs poll")
+        if r.random() < 0.5:
+            self.do(f"vs write {r.choice([5, 600, 3000])}")
+            self.do("vs poll")
+            if r.random() < 0.7:
+                self.peer_acks()
+                self.do("vs poll")
+        peer_data_lost = False
+        if r.random() < 0.5:
+            # peer sends some data; the last packet may get lost on the way
+            for i in range(r.randrange(1, 4)):
+                pl = self.peer_payload(r.choice([1, 100, 528]))
+                seq = self.peer_next
+                self.peer_next = (self.peer_next + 1) % 65536
+                self.peer_pos += len(pl)
+                if r.random() < 0.75:
+                    self.inject(0, seq=seq, payload=pl)
+                else:
+                    peer_data_lost = True
+            self.do("vs poll")
+        if target in ("fw1", "fw2", "fw1_data_out"):
+            self.do(r.choice(["vs shutdown", "vs shutdown", "vs dropw"]))
+            if target == "fw1_data_out" or r.random() < 0.2:
+                self.do("vs dropr") if r.random() < 0.5 else None
+            self.do("vs poll")
+            if target == "fw2" and self.our_fin_seq is not None:
+                self.inject(2, ack=self.our_fin_seq)
+                self.do("vs poll")
+        elif target == "la":
+            self.inject(1, seq=self.peer_next)
+            self.do("vs poll")
+        # stimuli
+        for _ in range(r.randrange(1, 5)):
+            if self.dead:
+                break
+            k = r.random()
+            if k < 0.55:
+                ty = r.choice([0, 1, 1, 1, 2, 2, 3, 4])
+                seq = (self.peer_next + r.choice([0, 0, 0, 1, 2, 65535, 7])) % 65536
+                acks = [self.peer_ack, (self.our - 1) % 65536, r.randrange(65536)]
+                if self.our_fin_seq is not None:
+                    acks += [self.our_fin_seq] * 3 + [(self.our_fin_seq - 1) % 65536]
+                ack = r.choice(acks)
+                pl = self.peer_payload(r.choice([1, 200])) if ty == 0 else b""
+                self.inject(ty, seq=seq, ack=ack, payload=pl)
+            elif k < 0.7:
+                self.do(r.choice(["vs read 10000", "vs write 50", "vs shutdown", "vs dropw", "vs dropr", "vs flush"]))
+            elif k < 0.9:
+                self.to_next_timer()
+                continue
+            else:
+                self.do(r.choice(["vs chanclose", "vs tmode pend 0", "vs tmode ok", "vs tmode fail 0"]))
+            self.do("vs poll")
+        for _ in range(r.randrange(0, 6)):
+            if self.dead:
+                break
+            self.to_next_timer()
+        for _ in range(r.randrange(0, 4)):
+            self.do(r.choice(["vs read 10000", "vs write 5", "vs flush", "vs shutdown"]))
+
+    def fam_receiver(self):
+        r = self.r
+        rx = r.choice([1 << 20, 4224, 2112, 1056])
+        self.start(r.random() < 0.7, f"rx={rx}" + r.choice(["", " mtu=576"]))
+        reader = r.choice(["fast", "slow", "stopped", "dropped_later"])
+        sent = {}
+        for step in range(r.randrange(5, 50)):
+            if self.dead:
+                break
+            k = r.random()
+            if k < 0.55:
+                n = r.choice([1, 100, 264, 528, 528, 528, 1000, 1400])
+                style = r.random()
+                if style < 0.7 or not sent:
+                    seq = self.peer_next
+                    pl = self.peer_payload(n)
+                    sent[seq] = pl
+                    self.peer_pos += n
+                    self.peer_next = (self.peer_next + 1) % 65536
+                    if r.random() < 0.85:
+                        self.inject(0, seq=seq, payload=pl, wnd=r.choice([None, None, 600]))
+                else:
+                    seq = r.choice(list(sent))
+                    self.inject(0, seq=seq, payload=sent[seq])
+                if r.random() < 0.6:
+                    self.do("vs poll")
+            elif k < 0.75:
+                d = r.choice([0, 1, 1_000_000, 39_999_999, 40_000_000, 40_000_001, 100_000_000])
+                t = self.fp.get("t_ack", "-")
+                if t != "-" and r.random() < 0.6:
+                    d = max(0, int(t) - self.now + r.choice([0, 0, -1, 1]))
+                self.do(f"vs adv {d}")
+                self.do("vs poll")
+            elif k < 0.95:
+                if reader == "fast" or (reader == "slow" and r.random() < 0.4) or (reader == "dropped_later" and step < 10):
+                    self.do(f"vs read {r.choice([1, 528, 100000])}")
+                    if r.random() < 0.5:
+                        self.do("vs poll")
+                elif reader == "dropped_later" and step >= 10:
+                    self.do("vs dropr")
+                    self.do("vs poll")
+                else:
+                    self.do("vs poll")
+            else:
+                self.inject(1, seq=self.peer_next)
+                self.do("vs poll")
+
+    def fam_window(self):
+        r = self.r
+        nagle = r.choice([0, 1, 1])
+        self.start(True, f"nagle={nagle} " + r.choice(["", "mtu=576", "tx0=2000 txmax=8000"]), rwnd=r.choice([0, 300, 600, 1500, 3000, 1 << 20]))
+        for _ in range(r.randrange(8, 50)):
+            if self.dead:
+                break
+            k = r.random()
+            if k < 0.35:
+                self.do(f"vs write {r.choice([1, 2, 10, 100, 527, 528, 529, 1000, 1256, 3000])}")
+                if r.random() < 0.7:
+                    self.do("vs poll")
+            elif k < 0.65:
+                w = r.choice([0, 0, 100, 300, 528, 600, 1256, 3000, 1 << 20])
+                self.peer_acks(wnd=w)
+                self.rwnd = w if r.random() < 0.5 else self.rwnd
+                self.do("vs poll")
+            elif k < 0.75:
+                # peer data whose payload is larger than our segment size, advertising a small window
+                pl = self.peer_payload(r.choice([600, 1000, 1452]))
+                seq = self.peer_next
+                self.peer_next = (self.peer_next + 1) % 65536
+                self.peer_pos += len(pl)
+                self.inject(0, seq=seq, payload=pl, wnd=r.choice([300, 600, 1000, 3000]))
+                self.do("vs poll")
+            elif k < 0.9:
+                self.to_next_timer()
+            else:
+                self.do("vs poll")
+
+    def run(self):
+        fam = self.r.choice([self.fam_bulk_loss, self.fam_bulk_loss, self.fam_rto_then_sack, self.fam_blackhole, self.fam_teardown, self.fam_teardown,
+                             self.fam_receiver, self.fam_window])
+        self.last_out = []
+        fam()
+        return self.ops
+
+
 def gen_vsock(P):
     def gen(seed, tier):
         r = P.rng_for(seed, "vsock")
         impl = Impl()
         cases = []
         try:
-            for _ in range(P.scale(tier, 400, 12000)):
+            n = P.scale(tier, 700, 15000)
+            for _ in range(n):
                 cases.append(Scenario(r, impl).run())
+            for _ in range(n * 2):
+                cases.append(Directed(r, impl).run())
         finally:
             impl.close()
         return cases
